@@ -712,7 +712,8 @@ dt_io_strpdtdur(struct __strpdtdur_st_s *st, const char *str)
 		switch (*sp++) {
 		case '\0':
 			res = -1;
-			ep = sp;
+			/* stay on the terminator */
+			ep = --sp;
 			goto out;
 		case '+':
 			st->sign = 1;
